@@ -2,5 +2,5 @@
 From Coq Require Import List NArith Bool.
 From FS Require Import Sx Model.AccEvents Model.SenderAcc.
 Import ListNotations.
-Example sender_empty_view : sender_accepts [] [Progress 0 false; Out (PStat None); In PFin; Out PFin; Progress 0 true; Return true] = Some true.
+Example sender_empty_view : sender_accepts [] [Progress 0 false; Out (PStat None); Inp PFin; Out PFin; Progress 0 true; Return true] = Some true.
 Proof. vm_compute. reflexivity. Qed.
